@@ -205,6 +205,11 @@ impl PropImpl for C03 {
                 };
                 let model = doc.model();
                 check_content(&d, &model, "content")?;
+                // the same document through the strict reader that takes an io::Read
+                match Deb822::read(text.as_bytes()) {
+                    Ok(d2) => check_content(&d2, &model, "content/read")?,
+                    Err(e) => return fail("accepts-well-formed/read", format!("Deb822::read rejects a well-formed document: {}", e)),
+                }
                 match Paragraph::from_str(&text) {
                     Ok(p) => {
                         ensure!(!model.is_empty(), "paragraph-from-str", "Paragraph::from_str accepted a document without paragraphs");
